@@ -10,20 +10,20 @@ BLOCK_ASSUME = ["granularity handler without rules (granularity 1) unless stated
                 "user data is never nil (the linear algorithm uses nil as its free marker)", "alignment is a power of two",
                 "handles passed to free/lookup belong to live allocations"]
 LIN_Q = "linear: all histories of 3 operations (lower/upper request+commit with symbolic size in [1,2B] and alignment 2^0..2^5, free of any live allocation) from an empty 100-byte block"
-LIN_RECIPES = "recipe states: ring buffer L3(3,j,m) (j in {1,2} freed at the front, m in {2,3,4} wrapped around), double stack L2(2,2), stack L1(4) with both middle entries freed, compaction family (36 entries in the first vector, 21 freed in the middle, with and without an upper stack), each followed by arbitrary operations"
+LIN_RECIPES = "recipe states: small ring buffer L3(2,1,2), ring buffer L3(3,j,m) (j in {1,2} freed at the front, m in {2,3,4} wrapped around), double stack L2(2,2), stack L1(4) with both middle entries freed, compaction family (36 entries in the first vector, 21 freed in the middle, with and without an upper stack), each followed by arbitrary operations"
 TLSF_Q = "TLSF: all histories of 3 operations (request+commit with symbolic size in [1,2B], alignment 2^0..2^6, strategy in {0,1,2,4}; free of any live allocation) on blocks of 256 and 320 bytes"
 OUT = "histories longer than stated from the stated recipe states; block sizes other than those listed; granularity rules (covered by C09); debug_mem_utils builds"
 
 checks = {}
 checks["C01"] = {
  "level": "model_checking",
- "jobs": [job("Verif_C01_Linear", [0, 3, 4, 5, 6], [0, 1, 2, 3, 4, 5, 6]), job("Verif_C01_TLSF", [0, 1], [0, 1, 2, 10, 11])],
+ "jobs": [job("Verif_C01_Linear", [0, 2, 3, 4, 5, 6, 7], [0, 1, 2, 3, 4, 5, 6, 7]), job("Verif_C01_TLSF", [0, 1], [0, 1, 2, 10, 11])],
  "bounds_quick": LIN_Q + "; " + LIN_RECIPES + " (quick: without the ring-buffer recipe; 2 operations after a recipe, 1 after compaction); " + TLSF_Q,
  "bounds_thorough": "as quick with 4 operations per history (3 after a recipe, 2 after compaction), block sizes 100 and 128 (linear) / 256, 320, 1000 (TLSF), ring-buffer recipe, TLSF recipe T(n<=4,F,pi) + 2 operations",
  "assumptions": BLOCK_ASSUME, "outside": OUT}
 checks["C03"] = {
  "level": "model_checking",
- "jobs": [job("Verif_C03_Linear", [0, 5], [0, 1, 2, 3, 4, 5, 6]), job("Verif_C03_TLSF", [0], [0, 1, 10])],
+ "jobs": [job("Verif_C03_Linear", [0, 3, 4, 5, 7], [0, 1, 2, 3, 4, 5, 6, 7]), job("Verif_C03_TLSF", [0, 1], [0, 1, 2, 10, 11])],
  "bounds_quick": LIN_Q + " and the compaction family with an upper stack + 1 operation; " + TLSF_Q.replace("256 and 320", "256") + ". After every operation: tiling of the enumerated regions, allocation count, free bytes, emptiness flag, Statistics, DetailedStatistics (min/max, unused ranges) against the harness' own live set, and Validate()==nil (Validate is executed symbolically as code under test).",
  "bounds_thorough": "as quick with 4 operations, all linear recipes, TLSF blocks 256/320 and recipe T(n<=4,F,pi)",
  "assumptions": BLOCK_ASSUME, "outside": OUT}
@@ -35,31 +35,31 @@ checks["C05"] = {
  "assumptions": BLOCK_ASSUME + ["granularity rules in force: none (null handler); the granularity-aware variant is part of C09's harness"], "outside": OUT}
 checks["C06"] = {
  "level": "model_checking",
- "jobs": [job("Verif_C06_Linear", [0, 3, 5], [0, 1, 2, 3, 4, 5, 6]), job("Verif_C06_TLSF", [0, 1], [0, 1, 10, 11])],
+ "jobs": [job("Verif_C06_Linear", [0, 3, 5, 7], [0, 1, 2, 3, 4, 5, 6, 7]), job("Verif_C06_TLSF", [0, 1], [0, 1, 10, 11])],
  "bounds_quick": LIN_Q + ", double-stack recipe and compaction family; " + TLSF_Q + "; after the history every remaining allocation is freed in ascending or descending order of age",
  "bounds_thorough": "all linear recipes, 4 operations, TLSF recipes",
  "assumptions": BLOCK_ASSUME, "outside": OUT}
 checks["C13"] = {
  "level": "model_checking",
- "jobs": [job("Verif_C13_Linear", [0, 3, 4], [0, 1, 2, 3, 4, 5, 6]), job("Verif_C13_TLSF", [0, 1], [0, 1, 2, 10])],
+ "jobs": [job("Verif_C13_Linear", [0, 3, 4, 7], [0, 1, 2, 3, 4, 5, 6, 7]), job("Verif_C13_TLSF", [0, 1], [0, 1, 2, 10])],
  "bounds_quick": LIN_Q + " + recipes L2(2,2), L1(4) with 2 operations; " + TLSF_Q + "; every call runs inside a panic catcher; a refusal must leave all observables unchanged. Block level only (the allocator-level clauses are checked by the vam harnesses).",
  "bounds_thorough": "all recipes, 4 operations",
  "assumptions": BLOCK_ASSUME, "outside": OUT + "; stale handles; alignment 0"}
 checks["C16"] = {
  "level": "model_checking",
- "jobs": [job("Verif_C16_Linear", [0, 2, 3, 4], [0, 1, 2, 3, 4, 5, 6])],
+ "jobs": [job("Verif_C16_Linear", [0, 2, 3, 4, 7], [0, 1, 2, 3, 4, 5, 6, 7])],
  "bounds_quick": LIN_Q + "; " + LIN_RECIPES + " (2 operations after a recipe); success flag and granted offset of every request, and acceptance of every free, compared in lock-step with an independent reference model (sets of live entries; no lazy deletion, no compaction) written from the property statement",
  "bounds_thorough": "4 operations (3 after a recipe), block sizes 100 and 128, compaction family",
  "assumptions": BLOCK_ASSUME + ["granularity 1: no conflict relation in force (granularity bumps are checked against the page rule by C09)"], "outside": OUT}
 checks["C17"] = {
  "level": "model_checking",
- "jobs": [job("Verif_C17_Linear", [0, 3, 4], [0, 1, 2, 3, 4, 5, 6]), job("Verif_C17_TLSF", [0, 1], [0, 1, 10])],
+ "jobs": [job("Verif_C17_Linear", [0, 3, 4, 7], [0, 1, 2, 3, 4, 5, 6, 7]), job("Verif_C17_TLSF", [0, 1], [0, 1, 10])],
  "bounds_quick": LIN_Q + " + recipes L2(2,2), L1(4); " + TLSF_Q + "; after every operation: user data and offset by handle for every live allocation, SetAllocationUserData on each allocation in turn, region visitor and (TLSF) list iteration visit every live allocation exactly once",
  "bounds_thorough": "all recipes, 4 operations",
  "assumptions": BLOCK_ASSUME, "outside": OUT}
 checks["C18"] = {
  "level": "model_checking",
- "jobs": [job("Verif_C18_Linear", [0], [0, 1, 2, 3, 4]), job("Verif_C18_TLSF", [0], [0, 1, 10])],
+ "jobs": [job("Verif_C18_Linear", [0, 7], [0, 1, 2, 3, 4, 7]), job("Verif_C18_TLSF", [0], [0, 1, 10])],
  "bounds_quick": LIN_Q + "; " + TLSF_Q.replace("256 and 320", "256") + "; TLSF: no two adjacent free ranges after every operation; then everything is freed (either order) or the block is cleared, and the block is compared with a freshly initialised one: observables, internal state modulo documented symmetries, and 2 further symbolic requests answered in lock-step",
  "bounds_thorough": "4 operations, linear recipes, TLSF 320 bytes and recipe",
  "assumptions": BLOCK_ASSUME, "outside": OUT}
